@@ -296,6 +296,12 @@ class Lab:
             v = self.versions.setdefault((disk2, path2, st.st_size, st.st_mtime_ns), [])
             if data not in v:
                 v.append(data)
+            if disk == disk2:
+                # a rename keeps the inode: with persistent inodes the tool carries the recorded hashes over to the new name, so
+                # every content this identity was ever seen with (e.g. before a silent corruption) describes the new name too
+                for old in self.versions.get((disk, path, st.st_size, st.st_mtime_ns), []):
+                    if old not in v:
+                        v.append(old)
 
     def cp(self, disk, path, disk2, path2, keep_mtime=True):
         data = self.read(disk, path)
